@@ -97,12 +97,20 @@ func (w *world) canon(cnt simCounters) string {
 				continue
 			}
 			rp := d.repl
-			fmt.Fprintf(&sb, "d%d(ph%d nx%d m%d ll%d lc%d lv%d:%d out%v fl%v c%v dr%v pe%v h%v nv%v", id, d.phase, rp.nextIndex, rp.matchIndex, rp.ldrLastIndex,
-				d.req.ldrCommitIndex, rp.log.PrevIndex(), rp.log.LastIndex(), d.outstanding, d.failures > 0, d.c != nil, d.draining, d.pipeEnd, d.helper != nil, rp.node.Voter)
+			lv := "nil"
+			if rp.log != nil {
+				lv = fmt.Sprintf("%d:%d", rp.log.PrevIndex(), rp.log.LastIndex())
+			}
+			fmt.Fprintf(&sb, "d%d(ph%d nx%d m%d ll%d lc%d lv%s out%v fl%v c%v dr%v pe%v h%v nv%v", id, d.phase, rp.nextIndex, rp.matchIndex, rp.ldrLastIndex,
+				d.req.ldrCommitIndex, lv, d.outstanding, d.failures > 0, d.c != nil, d.draining, d.pipeEnd, d.helper != nil, rp.node.Voter)
 			if len(rp.leaderUpdateCh) > 0 {
 				u := <-rp.leaderUpdateCh
 				rp.leaderUpdateCh <- u
-				fmt.Fprintf(&sb, " lu(%d:%d c%d cfg%v)", u.log.PrevIndex(), u.log.LastIndex(), u.commitIndex, u.config != nil)
+				if u.log == nil {
+					fmt.Fprintf(&sb, " lu(nilview c%d cfg%v)", u.commitIndex, u.config != nil)
+				} else {
+					fmt.Fprintf(&sb, " lu(%d:%d c%d cfg%v)", u.log.PrevIndex(), u.log.LastIndex(), u.commitIndex, u.config != nil)
+				}
 			}
 			if k := len(d.updCh); k > 0 {
 				for i := 0; i < k; i++ {
